@@ -13,7 +13,13 @@ import (
 	"net/http"
 	"net/textproto"
 	"strings"
+	"time"
 )
+
+// HandshakeTimeout is the longest a client waits for the server while negotiating a session (both requests
+// and an eventual StartTLS handshake). A peer which accepts the connection but never answers is given up
+// after this time so that the next upstream can be tried. Zero disables the limit.
+var HandshakeTimeout = 30 * time.Second
 
 // ClientConnection represents a client to the socketace server. It announces the client to the server,
 // checks the server and establishes the connection.
@@ -42,8 +48,14 @@ func NewClientConnection(c net.Conn, manager cert.TlsConfig, secure bool, host s
 		connection.securityTech = SecurityNone
 	}
 
+	if HandshakeTimeout > 0 {
+		_ = c.SetDeadline(time.Now().Add(HandshakeTimeout))
+		defer func() { _ = c.SetDeadline(time.Time{}) }()
+	}
+
 	log.Debugf("[Client] SocketAce handshake...")
 	if err := connection.handshake(conn); err != nil {
+		streams.TryClose(conn)
 		return nil, errors.Wrapf(err, "Could not negotiate protocol version: %v", err)
 	}
 
@@ -51,6 +63,7 @@ func NewClientConnection(c net.Conn, manager cert.TlsConfig, secure bool, host s
 
 	log.Debugf("[Client] SocketAce upgrade...")
 	if client, err := connection.upgrade(conn, shouldStartTls, secure); err != nil {
+		streams.TryClose(conn)
 		return nil, errors.Wrapf(err, "Could not upgrade connection: %v", err)
 	} else {
 		connection.Connection = client
